@@ -407,8 +407,32 @@ class Engine:
         else:
             self.exec_block(s.orelse)
 
+    def _name_nonlinear_real(self, name, v):
+        """a real-valued scalar defined by a division by / product of non-constants gets a name (fresh constant == expression):
+        later VCs then mention the name, which keeps them within reach of the product abstraction in core.solver.prove"""
+        if not (z3.is_expr(v) and v.sort() == z3.RealSort()) or getattr(self, "pure", 0) > 0:
+            return v
+
+        def nonlinear(e, depth=0):
+            if depth > 40 or not z3.is_app(e):
+                return False
+            k = e.decl().kind()
+            args = e.children()
+            nonnum = [a for a in args if not (z3.is_int_value(a) or z3.is_rational_value(a))]
+            if k == z3.Z3_OP_MUL and len(nonnum) >= 2:
+                return True
+            if k in (z3.Z3_OP_DIV, z3.Z3_OP_POWER) and not (z3.is_int_value(args[1]) or z3.is_rational_value(args[1])):
+                return True
+            return any(nonlinear(a, depth + 1) for a in args)
+        if not nonlinear(v):
+            return v
+        c = self.fresh("real", name)
+        self.pm.assume(c == v)
+        return c
+
     def assign(self, target, v):
         if isinstance(target, ast.Name):
+            v = self._name_nonlinear_real(target.id, v)
             self.env[target.id] = v
         elif isinstance(target, (ast.Tuple, ast.List)):
             items = self.unpack(v, len(target.elts))
